@@ -493,6 +493,34 @@ func c04MixedItems(r *Run) {
 			users := []c04User{{"ann", true}, {"bob", false}, {"cy", true}}
 			groups := []c04Group{{false, "ops", 3}, {true, "dev", 5}}
 			rows := []any{[]int{0, 1}, []string{"", "s"}, []any{nil, 2.5}}
+			// bindings on the loop's own <template> tag, the second computed from the first: each instance computes them from
+			// ITS item (with and without a per-item condition on the tag)
+			ns := []any{map[string]any{"n": 1 + rr.Intn(3)}, map[string]any{"n": 0}, map[string]any{"n": 4 + rr.Intn(3)}, map[string]any{"n": 7}}
+			chained := `<template v-for="(i, x) in ns" v-if="x.n > 0" :a="x.n" :b="a * 10"><q>{{ i }}:{{ x.n }}:{{ a }}:{{ b }}</q></template>` +
+				`<template v-for="x in ns" :c="x.n + 1" :d="c + 1"><q>{{ x.n }}:{{ c }}:{{ d }}</q></template>`
+			var wantQ []string
+			for i, it := range ns {
+				if n := it.(map[string]any)["n"].(int); n > 0 {
+					wantQ = append(wantQ, fmt.Sprintf("%d:%d:%d:%d", i, n, n, n*10))
+				}
+			}
+			for _, it := range ns {
+				n := it.(map[string]any)["n"].(int)
+				wantQ = append(wantQ, fmt.Sprintf("%d:%d:%d", n, n+1, n+2))
+			}
+			{
+				var qb bytes.Buffer
+				qerr := eng.New().Fill(map[string]any{"ns": ns}).RenderString(context.Background(), &qb, chained)
+				var gotQ []string
+				for _, m := range regexp.MustCompile(`<q>([^<]*)</q>`).FindAllStringSubmatch(qb.String(), -1) {
+					gotQ = append(gotQ, m[1])
+				}
+				r.Eval(fmt.Sprintf("chained-bindings:%d:%d", c, round), true, nil)
+				if qerr != nil || strings.Join(gotQ, ",") != strings.Join(wantQ, ",") {
+					r.Fail("bindings on a loop's <template> tag are not computed from the instance's own item", map[string]string{"oracle": "chained-template-bindings", "kind": "oracle"},
+						map[string]any{"template": chained, "ns": fmt.Sprint(ns), "expected": wantQ, "got": gotQ, "err": fmt.Sprint(qerr)})
+				}
+			}
 			tpl := `<i v-for="(i, x) in xs" :data-t="x">{{ i }}={{ x }}</i>` +
 				`<b v-for="item in users" v-if="item.Active">{{ item.Name }}</b>` +
 				`<u v-for="item in groups" v-if="item.Active">{{ item.Name }}{{ item.Size }}</u>` +
